@@ -6,6 +6,7 @@ CONSTANTS
   QIndirect = TRUE
   QEventIdx = TRUE
   MaxBufs = 3
+  Adversary = FALSE
   WithNotify = FALSE
   Bug = "none"
 INVARIANTS
